@@ -634,6 +634,59 @@ Qed.
 End QPart.
 
 (* ==================================================================================== *)
+(* additions (fixer round): the bound taken from the batch itself; InterpND cell volumes *)
+(* ==================================================================================== *)
+Section BoundFromBatch.
+Local Open Scope Q_scope.
+
+(* a bound that dominates every weight of the batch is kept as it is: with such a bound all
+   events of all batches are accepted with one and the same M (acceptance probability w / M) *)
+Lemma valid_bound_kept : forall M0 ws, qmax_list ws <= M0 -> bound_of (Some M0) ws = M0.
+Proof.
+  intros M0 ws H. unfold bound_of. cbv zeta.
+  destruct (Qltb M0 (qmax_list ws)) eqn:E; [|reflexivity].
+  apply Qltb_lt in E. exfalso. apply (Qlt_not_le _ _ E H).
+Qed.
+
+(* max_weight=None and a batch of one event: the bound is 1.01 * its own weight, so the event is
+   accepted iff u < 100/101, whatever its weight (the code as it is: open finding) *)
+Lemma none_bound_single_event_weight_blind : forall u w, 0 < w ->
+  (accept u w (bound_of None [w]) = true <-> u < 100 # 101).
+Proof.
+  intros u w Hw. unfold bound_of, qmax_list, qmax_from. cbv zeta.
+  assert (HM : 0 < w * (101 # 100)) by (apply Qmult_lt_0_compat; [exact Hw | reflexivity]).
+  rewrite (accept_region u w _ HM).
+  assert (E : w / (w * (101 # 100)) == 100 # 101).
+  { field. intro E0. rewrite E0 in Hw. discriminate. }
+  rewrite E. tauto.
+Qed.
+
+(* same for a whole first batch: the event that carries the maximum is accepted with probability
+   100/101 and every other event relative to THAT maximum, not to the supremum of the model *)
+Lemma none_bound_is_batch_max : forall ws, bound_of None ws == qmax_list ws * (101 # 100).
+Proof. intros. unfold bound_of. cbv zeta. reflexivity. Qed.
+
+(* InterpND, one cell in one dimension: the two corner weights add up to the trapezoid area,
+   the exact integral of the linear interpolant over the cell *)
+Lemma nd_cell_weight_1d_trapezoid : forall x0 x1 z0 z1 : Q,
+  nd_cell_weight (nd_int_all_vol [[x0; x1]] [z0; z1]) 1 0 2 == (z0 + z1) / 2 * (x1 - x0).
+Proof.
+  intros. unfold nd_cell_weight, nd_int_all_vol, nd_int_all_vol_at, nd_int_all_at, nd_cell_vol. cbn.
+  unfold pow2. cbn. field.
+Qed.
+
+(* nodes 0, 1, 3 with a constant density: the repaired weights give the first cell 1/3 of the
+   total, the weights of the code before the repair gave it 1/2 *)
+Lemma nd_vol_nonuniform_example :
+  nd_cell_weight (nd_int_all_vol [[0; 1; 3]] [1; 1; 1]) 2 0 2 == 1 /\
+  nd_cell_weight (nd_int_all_vol [[0; 1; 3]] [1; 1; 1]) 2 1 2 == 2.
+Proof. split; vm_compute; reflexivity. Qed.
+Lemma nd_old_no_volume_refuted :
+  nd_cell_weight (nd_int_all [3%nat] [1; 1; 1]) 2 0 2 == nd_cell_weight (nd_int_all [3%nat] [1; 1; 1]) 2 1 2.
+Proof. vm_compute; reflexivity. Qed.
+End BoundFromBatch.
+
+(* ==================================================================================== *)
 (* measure of the acceptance region: for a uniform number on [0,1] the acceptance        *)
 (* probability is w / M  (Riemann integral of the indicator)                             *)
 (* ==================================================================================== *)
@@ -665,3 +718,4 @@ Proof.
   unfold plus, scal; simpl. unfold mult; simpl. ring.
 Qed.
 End AcceptProb.
+
